@@ -175,3 +175,167 @@ Proof.
   split; [vm_compute; reflexivity|]. split; [reflexivity|]. split; [reflexivity|]. split; [reflexivity|].
   intros [_ [_ H]]. specialize (H kA GSlices _ (or_introl eq_refl)). destruct H as [_ [_ H]]. vm_compute in H. discriminate H.
 Qed.
+
+(** * Full instantiations for the examples of Props/C03.v (every hypothesis of the theorem, and its conclusion) *)
+
+(** one [_insert] step of the 5-D slice merge: self holds input 0 (j = 1), other is input 1 *)
+Definition ex5_full : hdr := mk_hdr [2; 2; 2; 2; 2] (Some 2) id_aff true true.
+Definition ex5_ks : kst jv := Some (GSlices, [JInt 10; JInt 11; JInt 12; JInt 13]).
+Definition ex5_ko : kst jv := Some (GSlices, [JInt 20; JInt 21; JInt 22; JInt 23]).
+Definition ex5_ks' : kst jv :=
+  Some (GSlices, [JInt 10; JInt 20; JInt 11; JInt 21; JInt 12; JInt 22; JInt 13; JInt 23]).
+
+Lemma ex5_frame_full : frame ex5_full [2; 2; 1; 2; 2] 2 2.
+Proof.
+  assert (H : merge_hdr (map (@hdr_of jv) ex5_es) 2 None None = Ok ex5_full) by (vm_compute; reflexivity).
+  exact (proj1 (merge_hdr_frame (map (@hdr_of jv) ex5_es) ex5_hdr 2 None None _ eq_refl (le_n 2)
+                  ltac:(repeat constructor) H)).
+Qed.
+
+Lemma ex5_step :
+  frame ex5_full [2; 2; 1; 2; 2] 2 2 /\ inp ex5_full [2; 2; 1; 2; 2] ex5_hdr /\ 1 <= 1 /\
+  axis_of (sdim ex5_full) 2 = Some AxS /\ (3 <= 2 -> sdim ex5_full <> None) /\
+  good_k (with_dim ex5_full 2 1) ex5_ks /\ good_k ex5_hdr ex5_ko /\
+  insert_k jv_eqb JNull (with_dim ex5_full 2 1) ex5_hdr 2 ex5_ks ex5_ko = Ok ex5_ks' /\
+  good_k (with_dim ex5_full 2 2) ex5_ks' /\
+  (* a position before j reads self, a position at j reads other at slice 0 *)
+  den_k JNull (with_dim ex5_full 2 2) ex5_ks' (0, 1, 1) = JInt 13 /\
+  den_k JNull (with_dim ex5_full 2 1) ex5_ks (0, 1, 1) = JInt 13 /\
+  den_k JNull (with_dim ex5_full 2 2) ex5_ks' (1, 1, 1) = JInt 23 /\
+  den_k JNull ex5_hdr (drop_k (use_slices ex5_full ex5_hdr) ex5_ko) (set_coord AxS (1, 1, 1) 0) = JInt 23.
+Proof.
+  refine (conj ex5_frame_full (conj (conj eq_refl eq_refl) (conj (le_n 1) (conj eq_refl (conj _ (conj _ (conj _
+          (conj _ (conj _ (conj _ (conj _ (conj _ _)))))))))))).
+  - intros _; discriminate.
+  - split; [reflexivity | split; [intros _ H; vm_compute in H; discriminate H | reflexivity]].
+  - split; [reflexivity | split; [intros _ H; vm_compute in H; discriminate H | reflexivity]].
+  - vm_compute. reflexivity.
+  - split; [reflexivity | split; [intros _ H; vm_compute in H; discriminate H | reflexivity]].
+  - vm_compute. reflexivity.
+  - vm_compute. reflexivity.
+  - vm_compute. reflexivity.
+  - vm_compute. reflexivity.
+Qed.
+
+(** widening: all hypotheses of the three widening theorems and the conclusions *)
+Definition exw_hdr : hdr := mk_hdr [2; 2; 2; 2; 2] (Some 2) id_aff true true.
+Definition exw_s : kst jv := Some (TSlices, [JInt 1; JInt 2]).
+
+Lemma ex_widen_full :
+  hdr_ok exw_hdr /\ good_k exw_hdr exw_s /\ class_ok (shape exw_hdr) VSlices = true /\
+  (is_slices VSlices = true -> sdim exw_hdr <> None) /\
+  has_base exw_hdr (base_of VSlices) = true /\ widens (kst_class exw_s) VSlices /\
+  changed_class JNull exw_hdr exw_s VSlices None = Ok [JInt 1; JInt 2; JInt 1; JInt 2] /\
+  length [JInt 1; JInt 2; JInt 1; JInt 2] = mult_spec (dims exw_hdr) VSlices /\
+  change_class_k JNull exw_hdr exw_s VSlices = Ok (Some (VSlices, [JInt 1; JInt 2; JInt 1; JInt 2])) /\
+  good_k exw_hdr (Some (VSlices, [JInt 1; JInt 2; JInt 1; JInt 2])) /\
+  den_k JNull exw_hdr (Some (VSlices, [JInt 1; JInt 2; JInt 1; JInt 2])) (1, 1, 0) = JInt 2 /\
+  den_k JNull exw_hdr exw_s (1, 1, 0) = JInt 2.
+Proof.
+  refine (conj _ (conj _ (conj eq_refl (conj _ (conj eq_refl (conj _ (conj _ (conj eq_refl (conj _ (conj _
+          (conj eq_refl eq_refl))))))))))).
+  - split; [cbn; lia|]. split; [repeat constructor | intros d H; injection H as <-; lia].
+  - split; [reflexivity | split; [intros _ H; vm_compute in H; discriminate H | reflexivity]].
+  - intros _ H; discriminate H.
+  - right. vm_compute. reflexivity.
+  - vm_compute. reflexivity.
+  - vm_compute. reflexivity.
+  - split; [reflexivity | split; [intros _ H; vm_compute in H; discriminate H | reflexivity]].
+Qed.
+
+(** the 5-D slice merge: every hypothesis of [merge_den] and the den equation on both sides of the boundary *)
+Definition ex5_r : ext jv := mk_ext ex5_full [(kA, (GSlices, [JInt 10; JInt 20; JInt 11; JInt 21; JInt 12; JInt 22; JInt 13; JInt 23]))].
+
+Lemma ex5_merge_full :
+  inputs_ok ex5_es (ex5_in 10) None /\
+  from_sequence jv_eqb JNull ex5_es 2 None None = Ok ex5_r /\
+  axis_of (out_sdim None (ex5_in 10)) 2 = Some AxS /\
+  (3 <= 2 -> out_sdim None (ex5_in 10) <> None) /\
+  trailing1b (shape (hdr_of ex5_r)) = false /\
+  validb ex5_r = true /\
+  in_dims (dims (hdr_of ex5_r)) (0, 1, 1) /\ in_dims (dims (hdr_of ex5_r)) (1, 1, 1) /\
+  den JNull ex5_r kA (0, 1, 1) = JInt 13 /\
+  den_in JNull (hdr_of ex5_r) (nth (coord AxS (0, 1, 1)) ex5_es (ex5_in 10)) kA (set_coord AxS (0, 1, 1) 0) = JInt 13 /\
+  den JNull ex5_r kA (1, 1, 1) = JInt 23 /\
+  den_in JNull (hdr_of ex5_r) (nth (coord AxS (1, 1, 1)) ex5_es (ex5_in 10)) kA (set_coord AxS (1, 1, 1) 0) = JInt 23.
+Proof.
+  refine (conj ex5_inputs (conj _ (conj eq_refl (conj _ (conj eq_refl (conj _ (conj _ (conj _ (conj _ (conj _
+          (conj _ _))))))))))).
+  - vm_compute. reflexivity.
+  - intros H; lia.
+  - vm_compute. reflexivity.
+  - cbn. lia.
+  - cbn. lia.
+  - vm_compute. reflexivity.
+  - vm_compute. reflexivity.
+  - vm_compute. reflexivity.
+  - vm_compute. reflexivity.
+Qed.
+
+(** the non-slice merge: key a agrees (kept), key b disagrees (dropped) *)
+Definition exn_r : ext jv :=
+  mk_ext (mk_hdr [2; 2; 2; 2] (Some 2) id_aff true false) [(kA, (TSlices, [JInt 1; JInt 2]))].
+
+Lemma exn_full :
+  inputs_ok [exn_in 7; exn_in 8] (exn_in 7) None /\
+  from_sequence jv_eqb JNull [exn_in 7; exn_in 8] 0 None None = Ok exn_r /\
+  0 < 3 /\ out_sdim None (exn_in 7) <> Some 0 /\
+  trailing1b (shape (hdr_of exn_r)) = false /\
+  in_dims (dims (hdr_of exn_r)) (1, 1, 0) /\
+  (* key a: both inputs read 2 at (1,1,0), so does the result *)
+  den_in JNull (hdr_of exn_r) (exn_in 8) kA (1, 1, 0) = den_in JNull (hdr_of exn_r) (exn_in 7) kA (1, 1, 0) /\
+  den JNull exn_r kA (1, 1, 0) = JInt 2 /\ den_in JNull (hdr_of exn_r) (exn_in 7) kA (1, 1, 0) = JInt 2 /\
+  (* key b: the inputs disagree, the result denotes None *)
+  den_in JNull (hdr_of exn_r) (exn_in 8) kB (1, 1, 0) <> den_in JNull (hdr_of exn_r) (exn_in 7) kB (1, 1, 0) /\
+  den JNull exn_r kB (1, 1, 0) = JNull.
+Proof.
+  refine (conj exn_inputs (conj _ (conj _ (conj _ (conj eq_refl (conj _ (conj eq_refl (conj eq_refl (conj eq_refl
+          (conj _ eq_refl)))))))))).
+  - vm_compute. reflexivity.
+  - lia.
+  - discriminate.
+  - cbn. lia.
+  - vm_compute. discriminate.
+Qed.
+
+(** totality / refusal: every hypothesis of [merge_total] for a time merge of three 3-D inputs, and a refused merge *)
+Lemma ex3_total_full :
+  inputs_ok [ex3_in 1; ex3_in 5; ex3_in 1] (ex3_in 1) None /\ args_ok None None /\
+  3 < 5 /\ nth 3 (shape (hdr_of (ex3_in 1))) 1 = 1 /\
+  ~ (3 = 4 /\ length (shape (hdr_of (ex3_in 1))) = 4 /\ nth 3 (shape (hdr_of (ex3_in 1))) 1 = 1) /\
+  (3 <= 3 -> out_sdim None (ex3_in 1) <> None) /\
+  (forall sh, set_nth 3 (length [ex3_in 1; ex3_in 5; ex3_in 1]) (pad_to 4 (shape (hdr_of (ex3_in 1)))) = Some sh ->
+              trailing1b sh = false) /\
+  (exists r, from_sequence jv_eqb JNull [ex3_in 1; ex3_in 5; ex3_in 1] 3 None None = Ok r /\
+             shape (hdr_of r) = [2; 2; 2; 3] /\ den JNull r kA (1, 1, 0) = JInt 6) /\
+  (* refusal: the slice axis of these inputs has extent 2 *)
+  inputs_ok [ex3_in 1; ex3_in 5] (ex3_in 1) None /\ nth 2 (shape (hdr_of (ex3_in 1))) 1 <> 1 /\
+  from_sequence jv_eqb JNull [ex3_in 1; ex3_in 5] 2 None None = Err EValue.
+Proof.
+  refine (conj ex3_inputs (conj (conj I I) (conj _ (conj eq_refl (conj _ (conj _ (conj _ (conj ex3_time (conj _
+          (conj _ ex_refused)))))))))).
+  - lia.
+  - intros [H _]; discriminate H.
+  - intros _; discriminate.
+  - intros sh H. vm_compute in H. injection H as <-. reflexivity.
+  - apply inputs_ok_b; vm_compute; auto.
+  - cbn. discriminate.
+Qed.
+
+(** refusal: every hypothesis of [merge_refuses] for a merge along the (non-singular) slice axis, both sides of the iff *)
+Lemma ex3_refuses_full :
+  inputs_ok [ex3_in 1; ex3_in 5] (ex3_in 1) None /\ args_ok None None /\
+  ~ (2 = 4 /\ length (shape (hdr_of (ex3_in 1))) = 4 /\ nth 3 (shape (hdr_of (ex3_in 1))) 1 = 1) /\
+  (3 <= 2 -> out_sdim None (ex3_in 1) <> None) /\
+  (forall sh, set_nth 2 (length [ex3_in 1; ex3_in 5]) (pad_to 3 (shape (hdr_of (ex3_in 1)))) = Some sh ->
+              trailing1b sh = false) /\
+  from_sequence jv_eqb JNull [ex3_in 1; ex3_in 5] 2 None None = Err EValue /\
+  (5 <= 2 \/ nth 2 (shape (hdr_of (ex3_in 1))) 1 <> 1).
+Proof.
+  refine (conj _ (conj (conj I I) (conj _ (conj _ (conj _ (conj ex_refused (or_intror _))))))).
+  - apply inputs_ok_b; vm_compute; auto.
+  - intros [H _]; discriminate H.
+  - intros H; lia.
+  - intros sh H. vm_compute in H. injection H as <-. reflexivity.
+  - cbn. discriminate.
+Qed.
